@@ -263,6 +263,118 @@ def gen_upd(rng, cid, directed=None, assort=None, wtype=None):
                   'recs': e['recs'], 'u': u, 'v': v, 'w': w, 'wtype': wtype}
 
 
+def gen_graph_threshold(rng, cid):
+    """real weights exactly at the 1e-6 threshold of the network constructor and one ulp on either side (a weight <= 1e-6 gives no
+    edge, the next double above gives one)"""
+    directed = rng.chance(0.5)
+    L = rng.rint(1, 3)
+    toks = [repr(EPS), repr(ulp_step(EPS, 1)), repr(ulp_step(EPS, -1)), '1e-06', '0.000001', '1.0000000000000002e-06', '0.0', '1.0', '2.5']
+    labels = make_labels(rng, rng.rint(2, 4), 's')
+    recs = [(rng.choice(labels), rng.choice(labels), [rng.choice(toks) for _ in range(L)]) for _ in range(rng.rint(1, 6))]
+    return graph_case(cid, directed, 's', 'r', L, recs), {'directed': directed, 'ltype': 's', 'wtype': 'r', 'L': L, 'recs': recs}
+
+
+# pairs (L_old, L) of likelihood values whose relative change |L_old - L| / |L_old| evaluates to EXACTLY 1e-4 in binary64 (found by search):
+# the convergence test `< 1e-4` fails on them, `<= 1e-4` would pass
+EXACT_CONV_PAIRS = [(float.fromhex('-0x1.bae63b3c8e2f0p+5'), float.fromhex('-0x1.badae4a6c3851p+5')),
+                    (float.fromhex('-0x1.cc92172399b20p+5'), float.fromhex('-0x1.cc864cbe3f14ep+5')),
+                    (float.fromhex('-0x1.7915661ede260p+5'), float.fromhex('-0x1.790bbedd95adap+5')),
+                    (float.fromhex('-0x1.b32987f5b5ee0p+5'), float.fromhex('-0x1.b31e6414a2f12p+5')),
+                    (float.fromhex('-0x1.d5deb2e8f9af0p+4'), float.fromhex('-0x1.d5d2ab9210cd1p+4')),
+                    (float.fromhex('-0x1.d10340716d650p+3'), float.fromhex('-0x1.d0f758ef92a1bp+3'))]
+
+
+def conv_threshold_scripts(rng):
+    """likelihood scripts whose second evaluation lands exactly on the convergence threshold (and one ulp on either side)"""
+    out = []
+    for a, b in EXACT_CONV_PAIRS:
+        for d in (0, 1, -1):
+            b2 = ulp_step(b, d)
+            out.append([a, b2, b2, b2, b2, b2])
+            out.append([a * 1.5, a, b2, b2, ulp_step(b2, 3), b2])
+    return out
+
+
+THRESHOLD_FAMILIES = ['Z-u', 'Z-v', 'Z-w', 'old-u', 'old-v', 'old-w', 'Zij-u', 'Zij-v', 'new-u', 'new-v', 'new-w', 'undirected-Z', 'undirected-new', 'undirected-Zij']
+
+
+def gen_upd_threshold(rng, cid, family=None, assort=None):
+    """states on which ONE guarded quantity of the update routines / the likelihood equals the 1e-6 threshold EXACTLY (or sits one ulp
+    beside it): a single edge 0 -> 1 in one layer, one active group g, every other entry exactly zero, the three active values
+    a = u(0,g), b = v(1,g) (u(1,g) when undirected), c = w(g,g,layer) products of powers of two, 1e-6 and 1e6, so that every
+    product, the one-term sums and the quotients involved are exact in binary64.  The bit-exact correspondence then tells
+    `>` from `>=` and `<` from `<=` at each guard (Z, old value, edge rate, truncation of the new value, log argument)."""
+    family = family or rng.choice(THRESHOLD_FAMILIES)
+    assort = rng.chance(0.5) if assort is None else assort
+    directed = not family.startswith('undirected')
+    K = rng.rint(2, 3)
+    g = rng.below(K)
+    L = rng.choice([1, 2])
+    a0 = rng.below(L)
+    s = rng.rint(1, 6)
+    t = rng.rint(0, 4)
+    P = lambda e: 2.0 ** e
+    a = b = c = 1.0
+    if family == 'Z-u':
+        a, b, c = 1.0, P(-s), EPS * P(s)                 # Z = c*b = eps
+    elif family == 'Z-v':
+        a, b, c = P(-s), 1.0, EPS * P(s)                 # Z = c*a = eps
+    elif family == 'Z-w':
+        a, b, c = EPS * P(s), P(-s), P(t)                # Z_kq = a*b = eps
+    elif family == 'old-u':
+        a, b, c = EPS, P(s), P(t)
+    elif family == 'old-v':
+        a, b, c = P(s), EPS, P(t)
+    elif family == 'old-w':
+        a, b, c = P(s), P(t), EPS
+    elif family == 'Zij-u':
+        a, b, c = P(-s), 1.0, EPS * P(s)                 # rate a*b*c = eps, Z_u = eps*2^s, Z_kq = 2^-s, log argument = eps
+    elif family == 'Zij-v':
+        a, b, c = 1.0, P(-s), EPS * P(s)
+    elif family == 'new-u':
+        a, b, c = P(s), 1.0, 1e6                         # new u = 2^s / 1e6 * 2^-s = eps
+    elif family == 'new-v':
+        a, b, c = 1.0, P(s), 1e6
+    elif family == 'new-w':
+        a, b, c = 1e6, 1.0, P(s)                         # new w = 2^s / 1e6 * (1e6 * (1 / (1e6 * 2^s))) = eps
+    elif family == 'undirected-Z':
+        a, b, c = P(-s - 1), P(-s - 1), EPS * P(s)       # Z = c*(a+b) = eps
+    elif family == 'undirected-new':
+        a, b, c = 1.0, 1.0, 5e5                          # Z = 1e6, new = eps for both vertices
+    elif family == 'undirected-Zij':
+        a, b, c = P(-s), 1.0, EPS * P(s)
+    # one ulp beside the threshold, on either side, for two cases in five
+    nudge = rng.choice([0, 0, 0, 1, -1])
+    which = rng.below(3)
+    if nudge:
+        if which == 0:
+            a = ulp_step(a, nudge)
+        elif which == 1:
+            b = ulp_step(b, nudge)
+        else:
+            c = ulp_step(c, nudge)
+    extra = rng.chance(0.3)                              # a third vertex that only occurs in an all-zero record
+    N = 3 if extra else 2
+    ws = ['0'] * L
+    ws[a0] = '1'
+    recs = [('p', 'q', ws)]
+    if extra:
+        recs.append(('q', 'z', ['0'] * L))
+    u = [[0.0] * K for _ in range(N)]
+    v = [[0.0] * K for _ in range(N)]
+    u[0][g] = a
+    if directed:
+        v[1][g] = b
+    else:
+        u[1][g] = b
+    wn = K * L if assort else K * K * L
+    w = [0.0] * wn
+    w[(g + a0 * K) if assort else (g + g * K + a0 * K * K)] = c
+    line = upd_case(cid, directed, assort, K, L, 'i', recs, u, v, w)
+    return line, {'directed': directed, 'assort': assort, 'K': K, 'L': L, 'N': N, 'regime': 'threshold:' + family + ('' if not nudge else ':%+dulp' % nudge),
+                  'recs': recs, 'u': u, 'v': v, 'w': w, 'wtype': 'i', 'family': family}
+
+
 # ----------------------------------------------------------------------------- E2E
 TYPE_PAIRS = [('u', 'u'), ('i', 'r'), ('s', 'i')]
 
